@@ -5,10 +5,12 @@ import (
 	"encoding/json"
 	"fmt"
 	"net/http/httptest"
+	"sort"
 	"strings"
 	"sync"
 
 	"github.com/vektah/gqlparser/v2/ast"
+	"github.com/vektah/gqlparser/v2/gqlerror"
 	"github.com/vektah/gqlparser/v2/validator"
 	"github.com/vektah/gqlparser/v2/validator/rules"
 
@@ -30,12 +32,25 @@ type swapCase struct {
 	Reached  []string  `json:"reached,omitempty"`
 }
 
-var swapDocs = map[string]string{"valid": `{ a }`, "unknown-field": `{ nosuch }`, "other-invalid": `{ a { x } }`}
+var swapDocs = map[string]string{"valid": `{ a }`, "unknown-field": `{ nosuch }`, "other-invalid": `{ a { x } }`, "gated": "{ a } #gate"}
+
+// swapGate refuses requests whose query text carries the marker (an OperationParameterMutator, as a user would
+// write an authentication or allow-list extension).
+type swapGate struct{}
+
+func (swapGate) ExtensionName() string                          { return "swapgate" }
+func (swapGate) Validate(schema graphql.ExecutableSchema) error { return nil }
+func (swapGate) MutateOperationParameters(ctx context.Context, p *graphql.RawParams) *gqlerror.Error {
+	if strings.Contains(p.Query, "#gate") {
+		return gqlerror.Errorf("refused by the gate")
+	}
+	return nil
+}
 
 func (c swapCase) coq() string {
 	var rq, ob []string
 	for _, r := range c.Reqs {
-		d := map[string]string{"valid": "DValid", "unknown-field": "DUnknownField", "other-invalid": "DOtherInvalid"}[r.Doc]
+		d := map[string]string{"valid": "DValid", "unknown-field": "DUnknownField", "other-invalid": "DOtherInvalid", "gated": "DGated"}[r.Doc]
 		rq = append(rq, fmt.Sprintf("(%s, %s)", gen.Bool(r.Disable), d))
 	}
 	for _, b := range c.Rejected {
@@ -65,14 +80,15 @@ func concurrentFirstRequests(c *gen.Ctx, r *gen.Rand, meta *gen.Meta) error {
 	var descr []any
 	defer freshProcessRules()
 	failures := 0
-	kinds := []string{"valid", "unknown-field", "unknown-field", "other-invalid"}
+	kinds := []string{"valid", "valid", "unknown-field", "unknown-field", "other-invalid", "gated", "gated"}
+	type srvT struct {
+		srv     *handler.Server
+		mu      sync.Mutex
+		reached map[int][]string
+	}
+	hookFailures := 0
 	for round := 0; round < rounds; round++ {
 		freshProcessRules()
-		type srvT struct {
-			srv     *handler.Server
-			mu      sync.Mutex
-			reached map[int][]string
-		}
 		mk := func(disable bool) *srvT {
 			s := &srvT{reached: map[int][]string{}}
 			note := func(ctx context.Context, what string) {
@@ -92,8 +108,13 @@ func concurrentFirstRequests(c *gen.Ctx, r *gen.Rand, meta *gen.Meta) error {
 			}
 			s.srv = handler.New(es)
 			s.srv.AddTransport(transport.POST{})
+			s.srv.Use(swapGate{})
 			s.srv.AroundOperations(func(ctx context.Context, next graphql.OperationHandler) graphql.ResponseHandler {
 				note(ctx, "operation interceptor")
+				return next(ctx)
+			})
+			s.srv.AroundResponses(func(ctx context.Context, next graphql.ResponseHandler) *graphql.Response {
+				note(ctx, "response interceptor")
 				return next(ctx)
 			})
 			if disable {
@@ -137,10 +158,35 @@ func concurrentFirstRequests(c *gen.Ctx, r *gen.Rand, meta *gen.Meta) error {
 			}
 			_ = json.Unmarshal([]byte(bodies[i]), &body)
 			errorsOnly := len(body.Errors) > 0 && (len(body.Data) == 0 || string(body.Data) == "null")
-			cs.Rejected[i] = codes[i] == 422 && len(reached) == 0 && errorsOnly
+			onlyResponseHook := true // an errors-only answer still passes the response interceptors (DispatchError)
+			for _, x := range reached {
+				if x != "response interceptor" {
+					onlyResponseHook = false
+				}
+			}
+			// the status a fresh server answers each kind with: validation failures 422; an extension's plain error 200
+			wantStatus := map[string]int{"valid": 200, "unknown-field": 422, "other-invalid": 422, "gated": 200}[rq.Doc]
+			cs.Rejected[i] = codes[i] == wantStatus && onlyResponseHook && errorsOnly
 			if rq.Doc != "valid" && !cs.Rejected[i] {
 				bad = true
 				cs.Reached = append(cs.Reached, fmt.Sprintf("request %d (%s): status %d, reached %v, body %s", i, rq.Doc, codes[i], reached, bodies[i]))
+			}
+			// hooks exactly once: an accepted request passes the operation interceptor, the executable schema and the
+			// response interceptor once each; a refused one the response interceptor once
+			want := []string{"response interceptor"}
+			if rq.Doc == "valid" {
+				want = []string{"operation interceptor", "response interceptor", "executable schema"}
+			}
+			got := append([]string{}, reached...)
+			sort.Strings(got)
+			sort.Strings(want)
+			if strings.Join(got, ",") != strings.Join(want, ",") && !(rq.Doc != "valid" && !cs.Rejected[i]) {
+				hookFailures++
+				if hookFailures <= 3 {
+					meta.Direct = append(meta.Direct, gen.DirectFinding{Signature: "hooks-not-exactly-once-under-concurrent-requests",
+						What:   fmt.Sprintf("first requests of a process sent at once (round %d): request %d (%s, status %d) passed %v; alone it passes %v", round, i, rq.Doc, codes[i], got, want),
+						Replay: cs})
+				}
 			}
 		}
 		if bad {
@@ -156,6 +202,6 @@ func concurrentFirstRequests(c *gen.Ctx, r *gen.Rand, meta *gen.Meta) error {
 			descr = append(descr, cs)
 		}
 	}
-	meta.Notes = append(meta.Notes, fmt.Sprintf("%d rounds of 2..8 first requests of a process sent at once to an executor with suggestions disabled and one with suggestions enabled (valid / unknown field / otherwise invalid documents; gqlparser's global rule set put back into its start-of-process state before each round): every invalid document must be answered 422 with errors only and reach neither an operation interceptor nor the executable schema; %d rounds failed; the first 60 rounds and the failing ones are cases for Model.RuleSwap", rounds, failures))
+	meta.Notes = append(meta.Notes, fmt.Sprintf("%d rounds of 2..8 first requests of a process sent at once to an executor with suggestions disabled and one with suggestions enabled (valid / unknown field / otherwise invalid documents / valid documents an operation-parameter extension refuses, behind an operation and a response interceptor; gqlparser's global rule set put back into its start-of-process state before each round): every refused request must be answered as a fresh server answers it (422 for a validation failure, 200 for the extension's error) with errors only and reach neither an operation interceptor nor the executable schema, and every request must pass each hook exactly as often as it does alone (%d requests did not); %d rounds failed; the first 60 rounds and the failing ones are cases for Model.RuleSwap", rounds, hookFailures, failures))
 	return meta.AddCaseFile(cf, descr)
 }
